@@ -15,7 +15,7 @@
 (***************************************************************************)
 EXTENDS AvroWire, Json, CSV
 
-CONSTANTS Dump, Size
+CONSTANTS Dump, Size, Lite
 VARIABLES x, ph
 
 Null == D("null", <<>>, <<>>)
@@ -52,11 +52,18 @@ Datums(s) ==
                               D("map", <<>>, <<D("entry", <<107>>, <<a>>), D("entry", <<>>, <<b>>)>>),
                               D("map", <<>>, <<D("entry", <<122, 122>>, <<b>>), D("entry", <<107>>, <<a>>), D("entry", <<113>>, <<a>>)>>)}
     [] s.k = "union"   -> UNION {{D("union", <<i - 1>>, <<v>>) : v \in Datums(s.c[i])} : i \in 1..Len(s.c)}
-    [] s.k = "record"  -> LET pick(t) == LET I == Datums(t) IN IF Cardinality(I) > 2 THEN {CHOOSE a \in I : TRUE, CHOOSE b \in I : b # (CHOOSE a \in I : TRUE)} ELSE I
+    [] s.k = "record"  -> LET pick(t) == LET I == Datums(t)
+                                             big == CHOOSE a \in I : \A w \in I : Len(a.c) + Len(a.b) >= Len(w.c) + Len(w.b)   \* the largest datum (most items)
+                                         IN IF Cardinality(I) > 2 THEN {big, CHOOSE b \in I : b # big} ELSE I
                           IN IF Len(s.c) = 0 THEN {D("record", <<>>, <<>>)}
                              ELSE IF Len(s.c) = 1 THEN {D("record", <<>>, <<a>>) : a \in pick(s.c[1].c[1])}
                              ELSE IF Len(s.c) = 2 THEN {D("record", <<>>, <<a, b>>) : a \in pick(s.c[1].c[1]), b \in pick(s.c[2].c[1])}
-                             ELSE {D("record", <<>>, <<a, b, c>>) : a \in pick(s.c[1].c[1]), b \in pick(s.c[2].c[1]), c \in pick(s.c[3].c[1])}
+                             ELSE IF Len(s.c) = 3 THEN {D("record", <<>>, <<a, b, c>>) : a \in pick(s.c[1].c[1]), b \in pick(s.c[2].c[1]), c \in pick(s.c[3].c[1])}
+                             \* wider records: two datums, each field taking its first / second choice
+                             ELSE LET f(i, w) == LET P == pick(s.c[i].c[1]) IN
+                                                 LET a == CHOOSE v \in P : \A q \in P : Len(v.c) + Len(v.b) >= Len(q.c) + Len(q.b) IN IF w = 1 \/ Cardinality(P) = 1 THEN a ELSE CHOOSE v \in P : v # a
+                                  IN {D("record", <<>>, [i \in 1..Len(s.c) |-> f(i, 1)]), D("record", <<>>, [i \in 1..Len(s.c) |-> f(i, 2)]),
+                                      D("record", <<>>, [i \in 1..Len(s.c) |-> f(i, 1 + (i % 2))])}
 
 \* ---- all legal encodings ----
 \* concatenations picking one element of each set of the sequence
@@ -67,9 +74,13 @@ ConcatPicks(sets) == IF sets = <<>> THEN {<<>>} ELSE {a \o r : a \in Head(sets),
 RECURSIVE SeqPicks(_)
 SeqPicks(sets) == IF sets = <<>> THEN {<<>>} ELSE {<<a>> \o r : a \in Head(sets), r \in SeqPicks(Tail(sets))}
 
-RECURSIVE Plans(_)
-Plans(n) == IF n = 0 THEN {<<>>}
-            ELSE UNION {{<<[n |-> k, sized |-> z]>> \o p : p \in Plans(n - k)} : k \in 1..n, z \in BOOLEAN}
+RECURSIVE AllPlans(_)
+AllPlans(n) == IF n = 0 THEN {<<>>}
+               ELSE UNION {{<<[n |-> k, sized |-> z]>> \o p : p \in AllPlans(n - k)} : k \in 1..n, z \in BOOLEAN}
+\* Lite: one unsized block, one sized block, one sized block per item (enough for skipping, keeps wide records tractable)
+Plans(n) == IF ~Lite THEN AllPlans(n)
+            ELSE IF n = 0 THEN {<<>>}
+            ELSE {<<[n |-> n, sized |-> FALSE]>>, <<[n |-> n, sized |-> TRUE]>>, [i \in 1..n |-> [n |-> 1, sized |-> (i % 2 = 1)]]}
 
 \* items: a sequence of already chosen item encodings; the blocks of plan, then the terminator
 RECURSIVE BlocksOf(_, _, _)
@@ -109,7 +120,15 @@ Level2 == {ArrayS(ArrayS(PLong)), ArrayS(MapS(PStr)), MapS(ArrayS(PStr)), MapS(M
            RecordS("R", <<FieldS("l", ArrayS(PLong)), FieldS("m", MapS(PStr)), FieldS("z", PLong)>>),
            RecordS("R", <<FieldS("n", RecordS("N", <<FieldS("x", ArrayS(PStr))>>)), FieldS("u", UnionS(<<PNull, RecordS("N2", <<FieldS("y", PLong)>>)>>))>>),
            ArrayS(FixedS("F3", 3)), MapS(EnumS("E", <<"A", "B">>))}
-Universe == IF Size = "quick" THEN Prims \cup {ArrayS(PLong), MapS(PStr), UnionS(<<PNull, PStr>>), UnionS(<<PLong, PNull>>),
+\* wide and nested records for projection / skipping (C04): every kind followed by further fields
+Wide == RecordS("W", <<FieldS("a", PLong), FieldS("l", ArrayS(PLong)), FieldS("s", PStr), FieldS("m", MapS(PStr)),
+                      FieldS("u", UnionS(<<PNull, PStr>>)), FieldS("f", FixedS("F2", 2)), FieldS("b", Prim("bytes")), FieldS("z", PLong)>>)
+Inner == RecordS("I", <<FieldS("x", ArrayS(PStr)), FieldS("y", Prim("double")), FieldS("k", Prim("boolean"))>>)
+Nested == RecordS("N", <<FieldS("i", Inner), FieldS("li", ArrayS(Inner)), FieldS("q", UnionS(<<PNull, Inner>>)), FieldS("t", Prim("float"))>>)
+Deep == RecordS("D", <<FieldS("mm", MapS(ArrayS(PLong))), FieldS("n", RecordS("N2", <<FieldS("u", UnionS(<<PStr, PNull>>)), FieldS("v", PLong)>>)), FieldS("e", Prim("int"))>>)
+ProjUniverse == IF Size = "proj" THEN {Wide, Nested} ELSE {Wide, Nested, Deep, ArrayS(Inner), MapS(Inner)}
+
+Universe == IF Size \in {"proj", "projfull"} THEN ProjUniverse ELSE IF Size = "quick" THEN Prims \cup {ArrayS(PLong), MapS(PStr), UnionS(<<PNull, PStr>>), UnionS(<<PLong, PNull>>),
                                                RecordS("R", <<FieldS("a", PLong), FieldS("b", PStr)>>), ArrayS(ArrayS(PLong)),
                                                RecordS("R", <<FieldS("l", ArrayS(PLong)), FieldS("m", MapS(PStr)), FieldS("z", PLong)>>)}
             ELSE Prims \cup Level1 \cup Level2
